@@ -165,6 +165,50 @@ pub fn constructs(thorough: bool) -> Vec<Construct> {
     v.push(stmt_c("closure-in-struct", 1, |o| format!("s := struct{{ h := (q: any) -> any {{ return {} }} }}; return s.h(1);", o[0])));
     v.push(stmt_c("closure-in-array", 1, |o| format!("arr := [(q: any) -> any {{ return {} }}]; return arr[0](1);", o[0])));
     v.push(stmt_c("closure-in-tuple", 1, |o| format!("t := ((q: any) -> any {{ return {} }}, 1); return t.0(t.1);", o[0])));
+    // a callee whose static type is a union of function types: the argument must fit the meet of
+    // the members' parameter types, so that whichever member runs gets a value of its own
+    // parameter type (identity body: the parameter is judged; use body: the parameter is used
+    // as its declared type says it can be)
+    {
+        const PARAMS: &[(&str, &str)] = &[
+            ("struct{a: int, b: int}", "p.a + p.b"),
+            ("struct{a: int, c: int}", "p.a + p.c"),
+            ("struct{a: int}", "p.a"),
+            ("(int, int)", "p.0 + p.1"),
+            ("(int, int, int)", "p.0 + p.1 + p.2"),
+            ("[int]", "p~ $+"),
+            ("[int|float]", "std.len(p)"),
+            ("int", "p + 1"),
+            ("int|float", "if q: int = p { q } else { 0 }"),
+            ("mut int", "*p + 1"),
+            ("mut (int|float)", "{ p = 2.5; 0 }"),
+        ];
+        for (i1, (p1, use1)) in PARAMS.iter().enumerate() {
+            for (i2, (p2, use2)) in PARAMS.iter().enumerate() {
+                if i1 == i2 || (!thorough && i1.max(i2) >= 5 && i1.min(i2) < 5 && (i1 + i2) % 2 == 0) {
+                    continue;
+                }
+                for sel in 0..2 {
+                    v.push(stmt_c(&format!("call-union-of-functions-identity:{p1},{p2}#{sel}"), 1, move |o| {
+                        format!("f := (p: {p1}) -> {p1} {{ return p }}; g := (p: {p2}) -> {p2} {{ return p }}; fs := [f, g]; return fs[{sel}]({});", o[0])
+                    }));
+                    v.push(stmt_c(&format!("call-union-of-functions-use:{p1},{p2}#{sel}"), 1, move |o| {
+                        format!("f := (p: {p1}) -> int {{ return {use1} }}; g := (p: {p2}) -> int {{ return {use2} }}; h := if {} {{ f }} else {{ g }}; return h({});", if sel == 0 { "std.len([1]) == 1" } else { "std.len([1]) == 2" }, o[0])
+                    }));
+                }
+            }
+        }
+    }
+    // the recorded finding's consequence for C02: the second component of the answer of an
+    // exhausted iterator whose element type is `!` is () at run time and `!` for the checker, which
+    // lets it stand as any operand (known_findings.json; every use below panics on the unchanged tree)
+    for (uname, usage) in [("add", "v9 + 1"), ("index", "v9[0]"), ("negate", "-v9"), ("len", "std.len(v9)"), ("component-add", "r9.1 + 1"), ("compare", "v9 < 1"), ("deref", "*v9"), ("iterate", "v9~ $]")] {
+        for (sname, source) in [("empty-array", "[]~"), ("mapped-to-never", "[]~ @ (q9: int) -> ! { loop { } }")] {
+            v.push(stmt_c(&format!("never-iterator-answer-used:{uname}:{sname}"), 1, move |o| {
+                format!("x9 := {}; it9 := {source}; r9 := it9(); (con9, v9) := r9; return {usage};", o[0])
+            }));
+        }
+    }
     v.push(stmt_c("closure-typed-result", 1, |o| format!("h := ((q: int) -> int {{ return q }}); r := h(1); return ({}, r);", o[0])));
     // exits inside a function that is itself inside a loop belong to the function, not to the loop
     v.push(stmt_c("break-in-fn-in-loop", 1, |o| {
@@ -606,11 +650,13 @@ pub fn check_only(thorough: bool) -> GridResult {
             // recipes of every operand type, all combinations
             if st.accepted > before {
                 // operators: four literals per slot (0, 1, -1, MIN_INT for ints), everything else two
-                let take = if c.name.starts_with("bin:") || c.name.starts_with("prefix:") { 4 } else { 2 };
+                // positions: slice bounds, indices and repeat lengths also get the four int literals
+                let positional = c.name.starts_with("slice") || c.name == "index" || c.name.starts_with("repeat");
+                let take = if c.name.starts_with("bin:") || c.name.starts_with("prefix:") || positional { 4 } else { 2 };
                 let lit_cands: Vec<Vec<&str>> = tys.iter().map(|t| literal_candidates(t, take)).collect();
                 if lit_cands.iter().all(|c| !c.is_empty()) {
                     let total: usize = lit_cands.iter().map(|c| c.len()).product();
-                    for k in 0..total.min(if take == 4 { 16 } else { 8 }) {
+                    for k in 0..total.min(if positional { 512 } else if take == 4 { 16 } else { 8 }) {
                         let mut kk = k;
                         let lits: Vec<&str> = lit_cands
                             .iter()
@@ -1180,6 +1226,44 @@ impl Ctx {
                 let ops: Vec<String> = lits.iter().map(|s| s.to_string()).collect();
                 let etext = e(&ops);
                 self.top_level(&etext, &format!("{origin}|top-level"));
+            }
+        }
+        // late-failing operand: the construct sits in a function value created at run time, and one
+        // operand is a constant operation on captured values that cannot succeed (`[a][ix9]` with
+        // ix9 = 1), known to the folder only when the function value is made - which must succeed;
+        // the failure belongs to the call of the function value
+        for s in 0..c.slots {
+            let ops: Vec<String> = (0..c.slots).map(|j| if j == s { format!("([{}][ix9])", NAMES[j]) } else { NAMES[j].to_string() }).collect();
+            let params: Vec<String> = tys.iter().enumerate().map(|(i, t)| format!("{}: {}", NAMES[i], t.print())).collect();
+            // as the construct renders itself, and (expression constructs) bound to a name first:
+            // a binding asks for the type of the expression while the function value is made
+            let mut bodies = vec![(c.render)(&ops)];
+            if let Some(e) = &c.expr {
+                bodies.push(format!("r9 := {}; return r9;", e(&ops)));
+                bodies.push(format!("return [{}];", e(&ops)));
+            }
+            for (bi, body) in bodies.iter().enumerate() {
+            let ftext = format!("f := ({}, ix9: int) -> any {{ inner := () -> any {{ {body} }}; return inner }}", params.join(", "));
+            let forigin = format!("{origin}|late-failing-operand#{s}|form{bi}");
+            begin_case();
+            if let Some(ff) = self.define(&ftext, &forigin) {
+                let mut fargs = Vec::new();
+                let mut flits: Vec<&str> = Vec::new();
+                for cnd in &cands {
+                    if let Some(v) = self.values.make(cnd[0]) {
+                        fargs.push(v);
+                        flits.push(RECIPES[cnd[0]].src);
+                    }
+                }
+                if fargs.len() == c.slots {
+                    fargs.push(Variable::Int(1));
+                    flits.push("1");
+                    let fcase = json!({"kind": "host_call", "program": ftext, "args": flits});
+                    if let Some(r) = self.host_call(&ff, fargs, &forigin, &fcase) {
+                        self.call_closure(&r, 2, &forigin, &fcase);
+                    }
+                }
+            }
             }
         }
         // the same calls once more as one history: cells and iterators handed in persist from
